@@ -24,6 +24,12 @@ def big_source():
     return 1 + next(i for i, n in enumerate(names) if "_many" in n)
 
 
+def wide_source():
+    """a 300-statement source: more matches in progress at once than any plausible fixed limit of a query cursor"""
+    names = source_names()
+    return 1 + next(i for i, n in enumerate(names) if "_many_wide" in n)
+
+
 def source_names():
     return sorted(f for f in os.listdir(C.CORPUS_PY) if f.endswith(".py"))
 
